@@ -59,11 +59,13 @@ type Obligation struct {
 	Res       SolverResult
 	Script    string
 	Inputs    []string // names of SMT constants that are inputs (for replay)
+	Lemma     bool        // smoke of a lemma: all its named hypotheses are part of the script
 	Before    *Obligation // cover pairs: reachability just before the assumed contract
 }
 
 // FV verifies one function (with its inlined callees).
 type FV struct {
+	noTriggers bool // proving a lemma: its own trigger annotations are not emitted
 	inBinder  int // >0 while translating the body of a quantifier
 	eng       *Engine
 	top       *ssa.Function
